@@ -299,3 +299,22 @@ def run(m):
             bad = (src, args, tg, got, want)
     return {"failing": bad is not None, "witness": "scope-order", "call": repr(bad[:3]) if bad else "14 scope-order templates", "result": bad[3] if bad else "ok", "expected": bad[4] if bad else ""}
 '''
+
+
+@structural("C14", "template-requests-carry-the-merged-globals")
+def merged_globals_reach_the_loader():
+    """'... then render()/front matter/template globals, then ENVIRONMENT globals': both
+    Environment.get_template twins hand the loader make_globals(request globals) -- a caching loader
+    assigns what it is given to the cached template on a hit, so anything less loses the
+    environment's names"""
+    import ast
+    from pyvc import flow, load
+    from contracts.C23 import REPLAY_ENV_GLOBALS
+    obs = []
+    envc = load.get_module("liquid.environment").classes["Environment"]
+    for fname, lname in (("get_template", "load"), ("get_template_async", "load_async")):
+        fn = load._last_def(envc.body, fname)
+        lcalls = [cl for cl in flow.calls(fn) if flow.dotted(cl.func) == f"self.loader.{lname}"]
+        gl = [flow.dotted(flow.kwarg(cl, "globals")) if flow.kwarg(cl, "globals") is not None else "<missing>" for cl in lcalls]
+        obs.append(flow.ob(f"Environment.{fname}:the-loader-gets-the-merged-globals", bool(lcalls) and all(g == "self.make_globals(globals)" for g in gl), str(gl), replay_schema="code", replay_extra={"code": REPLAY_ENV_GLOBALS}))
+    return obs
